@@ -5,13 +5,13 @@ Spec/MavenSpec.v (ComparableVersion 3.6).  Theorems: Properties/C01_maven.v, C02
 """
 from lib import sx, parse_sx
 from gen import versions
-from props.parts import mg_common as mg
+from props.parts import _mg_common as mg
 
 SYS = 3
 NAME = "Maven"
 
 # known classes (ids must be open entries of known/Cxx.jsonl to be counted instead of reported)
-F_C02_ZERO = "F-C02-3"     # 00 is not trimmed like 0
+F_C02_ZERO = "F-C02-11"     # 00 is not trimmed like 0
 F_C10_LEADSEP = "F-C10-2"  # canon drops the separator of the first element
 
 
